@@ -10,7 +10,8 @@ sid = "%s-%s" % (prop, x)
 dst = "/verif/seeded/" + sid
 os.makedirs(dst, exist_ok=True)
 shutil.copy(src + "/patch.diff", dst + "/patch.diff")
-shutil.copy(src + "/demo.rs", dst + "/" + os.path.basename(dest))
+demo = "demo.py" if os.path.exists(src + "/demo.py") else "demo.rs"
+shutil.copy(src + "/" + demo, dst + "/" + os.path.basename(dest))
 readme = open(src + "/README.md").read()
 open(dst + "/README.agent.md", "w").write(readme)
 props = [prop] + extra
@@ -26,7 +27,7 @@ meta = json.load(open(meta_path)) if os.path.exists(meta_path) else {}
 meta.update(dict(
     id=sid, breaks_property=prop, files_changed=files, demonstration=os.path.basename(dest),
     demonstration_placement=dest,
-    confirmed=dict(how="tools/confirm_mutant.sh in the scratch worktree /tmp/mut/%s (removed afterwards)" % prop,
+    confirmed=dict(how="tools/confirm_mutant.sh (confirm_py_mutant.sh for Python demonstrations) in the scratch worktree /tmp/mut/%s (removed afterwards)" % prop,
                    suite_with_change="baseline pass/fail set (84 stable tests pass, only the 4 baseline `--test argmax` failures; lightmotif-py unit tests OK)",
                    demo_with_change="fails", demo_without_change="passes"),
     written_by="independent sub-agent given only the property text and its own worktree",
